@@ -18,10 +18,26 @@ theorem remaining_init (progs : List (List POp)) :
   | nil => rfl
   | cons a l ih => simp only [remaining, List.map_cons, List.flatMap_cons] at ih ⊢; rw [ih]
 
+theorem RtSys.step_order (s : RtSys) (i : Nat) : (s.step i).order = s.order := by
+  unfold RtSys.step
+  split
+  · unfold RtSys.prodStep
+    repeat' split
+    all_goals rfl
+  · unfold RtSys.consStep
+    repeat' split
+    all_goals rfl
+
+theorem RtSys.run_order (s : RtSys) (picks : List Nat) : (s.run picks).order = s.order := by
+  induction picks generalizing s with
+  | nil => rfl
+  | cons i r ih => simp only [RtSys.run, List.foldl_cons] at ih ⊢; rw [ih, RtSys.step_order]
+
 /-- **Completions are delivered exactly once, unmerged, in order — in every interleaving.**
 Any number of producer threads run arbitrary programs of `post(key,data)` / `wakeup` calls, the backend runs
 an arbitrary list of `wait(max)` calls, and the scheduler interleaves their atomic actions (locked push, doorbell
-write, epoll poll, eventfd read, locked pop) in any way (`picks`).  Then
+write; epoll poll, eventfd read, lock + copy-out, re-arm write, unlock — a push blocks while the backend holds
+ring_lock, a doorbell write never blocks) in any way (`picks`).  Then
 
 1. at every moment the events returned by the waits so far, followed by what is still queued, are exactly the
    accepted completions with their key and data, in the order in which they were pushed — nothing is merged,
@@ -38,7 +54,8 @@ theorem posts_delivered_exactly_once (progs : List (List POp)) (waits picks : Li
       (s.accepted ++ s.refused).Perm (progs.flatMap postsOf)) := by
   intro s
   have hsafe : s.Safe := RtSys.safe_run _ picks (by simp [RtSys.Safe, RtSys.init])
-  have hbell : s.Bell := RtSys.bell_run _ picks (by intro h; simp [RtSys.init] at h)
+  have hbell : s.Bell := RtSys.bell_run _ picks (by intro _ h; simp [RtSys.init] at h)
+  have hord : s.order = .bellFirst := by rw [RtSys.run_order]; rfl
   have hbooks : s.Books (progs.flatMap postsOf) :=
     RtSys.books_run _ picks _ (by simp [RtSys.Books, RtSys.init, remaining_init])
   refine ⟨hsafe, ?_⟩
@@ -47,10 +64,11 @@ theorem posts_delivered_exactly_once (progs : List (List POp)) (waits picks : Li
   · rw [flushAll_eq_ring max hmax _ _ (Nat.lt_succ_self _)]
     · exact hsafe
     · intro hne
-      rcases hbell hne with hb | ⟨p, hp, hpr⟩ | ⟨m, hm⟩
+      rcases hbell hord hne with hb | ⟨p, hp, hpr⟩ | ⟨m, hm⟩ | ht
       · exact hb
       · have := (hq.1 p hp).2; simp [hpr] at this
       · have := hq.2; simp [hm] at this
+      · have := hq.2; simp [ht] at this
   · have := hbooks
     simp only [RtSys.Books, remaining_quiescent _ hq.1, List.append_nil] at this
     exact this
@@ -69,6 +87,46 @@ theorem posts_multiset_preserved (progs : List (List POp)) (waits picks : List N
   rw [hr', List.append_nil] at h4
   exact h4
 
+/-- the statement "no wake-up is lost" for a given order of doorbell reset and ring drain inside `wait` -/
+def NoLostWakeup (o : Order) : Prop :=
+  ∀ (progs : List (List POp)) (waits picks : List Nat),
+    let s := (RtSys.init progs waits o).run picks
+    s.cph = .idle → s.rt.ring ≠ [] → s.rt.bell > 0 ∨ ∃ p ∈ s.prods, p.pendingRing = true
+
+/-- **No lost wake-up.**  In every interleaving of the atomic steps of posts, wake-ups and waits, whenever the backend
+is about to call `epoll_wait` (so: whenever a wait would go to sleep) while the completion ring is not empty, the
+doorbell counter is non-zero — `epoll_wait` returns at once — or a producer is between its push and its doorbell write
+and rings as its very next step.  This is what resetting the doorbell BEFORE draining the ring establishes; the
+opposite order breaks it (`NV.C19.Swapped.not_noLostWakeup`). -/
+theorem no_lost_wakeup : NoLostWakeup .bellFirst := by
+  intro progs waits picks s hidle hne
+  have hbell : s.Bell := RtSys.bell_run _ picks (by intro _ h; simp [RtSys.init] at h)
+  have hord : s.order = .bellFirst := by rw [RtSys.run_order]; rfl
+  rcases hbell hord hne with hb | hp | ⟨m, hm⟩ | ht
+  · exact Or.inl hb
+  · exact Or.inr hp
+  · simp [hidle] at hm
+  · simp [hidle] at ht
+
+/-- corollary in the words of the oracle: once every post that pushed has also rung, a non-empty ring makes the next
+    `epoll_wait` return immediately -/
+theorem posted_completion_wakes_next_wait (progs : List (List POp)) (waits picks : List Nat) :
+    let s := (RtSys.init progs waits).run picks
+    s.cph = .idle → s.rt.ring ≠ [] → (∀ p ∈ s.prods, p.pendingRing = false) → s.rt.poll = true := by
+  intro s hidle hne hnp
+  rcases no_lost_wakeup progs waits picks hidle hne with hb | ⟨p, hp, hpr⟩
+  · simpa [Rt.poll] using hb
+  · have := hnp p hp; simp [hpr] at this
+
+/-- non-vacuity: the interleaving that loses the wake-up in the other order — a second producer posts while the
+    backend is between its steps — here leaves the doorbell set -/
+example :
+    ((RtSys.init [[.post 1 1], [.post 2 2]] [8, 8]).run [0, 0, 2, 2, 1, 1, 2, 2, 2]).rt = { bell := 1, ring := [] } := by
+  decide
+example :
+    ((RtSys.init [[.post 1 1], [.post 2 2]] [8, 8]).run [0, 0, 2, 2, 2, 2, 2, 1, 1]).rt = { bell := 1, ring := [(2, 2)] } := by
+  decide
+
 /-- a post is refused only on a full ring -/
 theorem post_refused_only_when_full (rt : Rt) (it : Item) : (rt.post it).2 = -1 → rt.ring.length ≥ ringSize := by
   unfold Rt.post Rt.push
@@ -77,10 +135,10 @@ theorem post_refused_only_when_full (rt : Rt) (it : Item) : (rt.post it).2 = -1 
 /-- non-vacuity: two producers, posts piled up together with a wake-up before the backend polls; all threads
     finish, both completions arrive unmerged -/
 example :
-    ((RtSys.init [[.post 4097 5, .post 4097 7], [.wakeup]] [8]).run [0, 0, 0, 1, 0, 2, 2, 2]).delivered
+    ((RtSys.init [[.post 4097 5, .post 4097 7], [.wakeup]] [8]).run [0, 0, 0, 1, 0, 2, 2, 2, 2, 2]).delivered
       = [[(4097, 5), (4097, 7)]] := by decide
 example :
-    ((RtSys.init [[.post 4097 5, .post 4097 7], [.wakeup]] [8]).run [0, 0, 0, 1, 0, 2, 2, 2]).quiescent := by
+    ((RtSys.init [[.post 4097 5, .post 4097 7], [.wakeup]] [8]).run [0, 0, 0, 1, 0, 2, 2, 2, 2, 2]).quiescent := by
   unfold RtSys.quiescent; decide
 
 /-! ## queue -/
